@@ -1,0 +1,14 @@
+//go:build verif
+
+package forwarding
+
+// Contracts for forwarding endpoint URLs (used by property C38).
+// Comment-only file: compiled only under the "verif" build tag, contains no
+// code. The "//@" lines are read by govc.
+
+// Trusted: Parse is a function of its argument and writes nothing (it splits
+// the text at the first colon and looks the protocol up in a fixed list).
+//@ func Parse
+//@   opaque
+//@   pure
+//@   deterministic
